@@ -8,6 +8,7 @@ args = [a for a in sys.argv[1:] if not a.startswith("--")]
 MODE = ([a for a in sys.argv[1:] if a.startswith("--")] or ["--all"])[0]
 pid, m = args[0], args[1]
 extra = args[2:]
+VERIF = os.environ.get("VERIF_RUN_DIR", "/verif")     # where the checks are run from (a snapshot of /verif while /verif is being edited)
 wt = "%s/%s" % (os.environ.get("MUT_ROOT", "/tmp/wt"), pid)
 src = "%s/MUTANTS/%s" % (wt, m)
 dst = "/verif/seeded/%s-%s" % (pid, m)
@@ -50,13 +51,13 @@ if meta["confirmed"]:
     try:
         for chk in [pid] + extra:
             t0 = time.time()
-            rc, out = sh("./check %s --tier quick" % chk, cwd="/verif")
+            rc, out = sh("./check %s --tier quick" % chk, cwd=VERIF)
             viol = [l for l in out.split("\n") if l.startswith("VIOLATION") or l.strip().startswith("clause=")][:6]
             results[chk] = {"exit": rc, "wall_s": round(time.time() - t0, 1), "lines": viol, "tail": out.strip().split("\n")[-1][:300]}
             print(chk, "exit", rc, "%.0fs" % (time.time() - t0), viol[:2])
     finally:
         sh("git checkout -- .", cwd="/repo")
-        sh("rm -rf /verif/replays")
+        sh("rm -rf %s/replays" % VERIF)
     assert sh("git status --porcelain", cwd="/repo")[1].strip() == ""
 meta["checks_run"] = results
 meta["detected_by"] = [c for c, r in results.items() if r["exit"] == 1]
